@@ -66,7 +66,7 @@ NSHARDS = int(os.environ.get("VERIF_DEV_SHARDS", "16"))   # development aid (mut
 
 
 def shards(tier, seed, scale):
-    per = 24 if tier == "quick" else 1500
+    per = 24 if tier == "quick" else 1000
     return common.mk_shards(NSHARDS, seed, tier, per * 16 // NSHARDS, scale, salt="c24")
 
 
